@@ -568,6 +568,9 @@ def gen_cases(rng, tier):
         "thorough": dict(fl=3000, conv=4000, peaks=5000, fdr=3000, unify=6000, segs=3000, hs=2500, oracle=4000, cw=1200, hsw=900, idx=400),
         "search": dict(fl=100, conv=300, peaks=300, fdr=200, unify=300, segs=200, hs=300, oracle=300, cw=150, hsw=100, idx=40),
     }[tier]
+    import os as _os
+    if _os.environ.get("VERIF_C11_ORACLE"):   # development switch (mutation self-tests on a loaded machine): fewer oracle profiles
+        sizes["oracle"] = int(_os.environ["VERIF_C11_ORACLE"])
     cases = [{"op": "consts", "tag": "consts", "in": {}}, {"op": "hmm_init", "tag": "hmm-init", "in": {}}]
     # the extension draws from its own generator (seeded from the run's), so that the cases of the earlier ops
     # keep their numbering
